@@ -265,7 +265,9 @@ static void *body_g(void *arg)
   t->p = reproc_new();
   reproc_options o;
   memset(&o, 0, sizeof o);
-  if (g_err_to_out) o.redirect.err.type = REPROC_REDIRECT_STDOUT;
+  if (g_err_to_out == 1) o.redirect.err.type = REPROC_REDIRECT_STDOUT;
+  static const uint8_t some_input[2] = { 'i', 'n' };
+  if (g_err_to_out == 2 && t->id == 1) { o.input.data = some_input; o.input.size = 2; } /* one of the two gets start-up input: its stdin end is closed by the library at once */
   vk_script("");
   vk_api_seq = 5000 + t->id;
   int r = reproc_start(t->p, hx_helper_argv(), o);
@@ -302,9 +304,9 @@ static void run_g(int err_to_out)
     vk_cfg.fault_calls = 1ull << C_CLOSE;
     vk_cfg.total_bound = 2;
   }
-  snprintf(key, sizeof key, "h_c20|short-life-cycles|threads=2|preemptions<=1|%s", err_to_out ? "stderr-to-stdout" : "one-interrupted-close");
+  snprintf(key, sizeof key, "h_c20|short-life-cycles|threads=2|preemptions<=1|%s", err_to_out == 2 ? "one-with-start-up-input" : err_to_out ? "stderr-to-stdout" : "one-interrupted-close");
   hx_desc("%s", key);
-  snprintf(key, sizeof key, "h_c20|short-life-cycles|%s", err_to_out ? "stderr-to-stdout" : "one-interrupted-close");
+  snprintf(key, sizeof key, "h_c20|short-life-cycles|%s", err_to_out == 2 ? "one-with-start-up-input" : err_to_out ? "stderr-to-stdout" : "one-interrupted-close");
   hx_begin();
   vk_faults_armed = !err_to_out;
   static struct tb t[2];
@@ -494,7 +496,7 @@ static void run_c(void)
   vk_thread_join(b);
 }
 
-static long c20_n(int tier) { return tier ? 10 : 9; }
+static long c20_n(int tier) { return tier ? 11 : 10; }
 static void c20_run(int tier, long cfg)
 {
   switch (cfg) {
@@ -507,7 +509,8 @@ static void c20_run(int tier, long cfg)
     case 6: run_g(0); break;
     case 7: run_h(tier ? 3 : 2); break;
     case 8: run_g(1); break;
-    case 9: run_b(3, 0, 0); break; /* three threads: every free alternative (blocked calls, joins, exits), no preemption */
+    case 9: run_g(2); break;
+    case 10: run_b(3, 0, 0); break; /* three threads: every free alternative (blocked calls, joins, exits), no preemption */
   }
 }
 
